@@ -130,21 +130,6 @@ noncomputable def exTbl : Tbl ℝ where
 def exAla : Compound ℝ :=
   ⟨[(⟨6, 0, 0⟩, 3), (⟨1, 0, 0⟩, 4), (⟨1, 1, 0⟩, 1), (⟨7, 0, 0⟩, 1), (⟨8, 0, 0⟩, 1)], 1.4⟩
 
-theorem exTbl_mass_pos (a : Atom) : 0 < exTbl.atomMass a := by
-  simp only [Tbl.atomMass, PtModel.atomMass, exTbl, mul_zero, sub_zero, ite_self]
-  split_ifs <;> norm_num
-
-theorem exTbl_im_nonpos (w : ℝ) (a : Atom) : (pa exTbl w a).1.2 ≤ 0 := by
-  have h0 := lambda0_pos
-  unfold pa Tbl.neutron exTbl
-  simp only
-  split_ifs <;> simp only [scatteringByWavelength, NRec.bcComplex, lit, le_refl] <;>
-    first
-    | (apply div_nonpos_of_nonpos_of_nonneg
-       · norm_num
-       · push_cast; positivity)
-    | norm_num
-
 example : SolutePhysical exTbl exAla 1.798 where
   keys := by unfold KeysNodup exAla; decide
   data := by
@@ -159,8 +144,21 @@ example : SolutePhysical exTbl exAla 1.798 where
     intro e he
     simp [exAla] at he
     rcases he with rfl | rfl | rfl | rfl | rfl <;> norm_num
-  masses := exTbl_mass_pos
+  masses := by
+    intro a
+    simp only [Tbl.atomMass, PtModel.atomMass, exTbl, mul_zero, sub_zero, ite_self]
+    split_ifs <;> norm_num
   density := by simp [exAla]; norm_num
-  im := exTbl_im_nonpos 1.798
+  im := by
+    intro a
+    have h0 := lambda0_pos
+    unfold pa Tbl.neutron exTbl
+    simp only
+    split_ifs <;> simp only [scatteringByWavelength, NRec.bcComplex, lit, le_refl] <;>
+      first
+      | (apply div_nonpos_of_nonpos_of_nonneg
+         · norm_num
+         · push_cast; positivity)
+      | norm_num
 
 end PtVerif.C16
